@@ -111,6 +111,7 @@ def run(prog, R):
     scanners.check(prog, R, "C10.2-digit-scanner-table")
     scanners.suffix_start_check(prog, R, "C10.2-suffix-start-agrees")
     scanners.exponent_markers(prog, R, "C10.3-exponent-markers")
+    scanners.leading_zero_check(prog, R, "C10.3-leading-zero-continues")
     # lexer side: prefixes and digit scanners per base
     num = R.anchor(prog, "oq3_lexer::Cursor::number")
     if num:
